@@ -26,7 +26,16 @@ fn is_code_letter(b: u8) -> Option<u8> {
     set_of(b.to_ascii_uppercase()).filter(|_| b.is_ascii_alphabetic())
 }
 
-pub fn run(_ctx: &Ctx, rep: &mut Report) {
+pub fn run(ctx: &Ctx, rep: &mut Report) {
+    if ctx.mine(0) {
+        run_tables(rep);
+    }
+    run_two_sites(ctx, rep);
+    rep.completed.push("all".into());
+}
+
+/// parts 1-8: the finite tables and single-site families (one shard does them)
+fn run_tables(rep: &mut Report) {
     // 1. union table
     for base in [b'A', b'C', b'G', b'T'] {
         let enc = encode_base(base) as usize;
@@ -265,6 +274,11 @@ pub fn run(_ctx: &Ctx, rep: &mut Report) {
             }
         }
     }
+}
+
+fn run_two_sites(ctx: &Ctx, rep: &mut Report) {
+    let k = 5usize;
+    let mut idx = 0u64;
     // 9. the weights are applied per site: two ambiguous sites in one table, every (x1, y1, x2, y2) over the 15 codes, in
     // both row orders (a third sample keeps both sites variable): each pairwise distance is the sum of the two sites'
     {
@@ -284,6 +298,10 @@ pub fn run(_ctx: &Ctx, rep: &mut Report) {
         let symbols: Vec<u8> = IUPAC_SETS.iter().map(|(c, _)| *c).collect();
         for x1 in &symbols {
             for y1 in &symbols {
+                idx += 1;
+                if !ctx.mine(idx) {
+                    continue;
+                }
                 let z1 = third(*x1, *y1);
                 for x2 in &symbols {
                     for y2 in &symbols {
@@ -311,5 +329,4 @@ pub fn run(_ctx: &Ctx, rep: &mut Report) {
             }
         }
     }
-    rep.completed.push("all".into());
 }
